@@ -274,6 +274,147 @@ namespace c09
         auto tie() const { return std::tie(o, cs, m, v); }
     };
 
+    // ---- recursive user types with custom serialize()/deserialize() members (serialize_helper_basic<.., true>): a
+    // child travels as a length-prefixed blob produced by the free function igris::serialize(child), so that function
+    // is re-entered - for the same T - while the parent is being written; likewise igris::deserialize<T>(blob)
+    static inline std::string short_name(Gen &g)
+    {
+        std::string s(g.r.below(12), 'x');
+        for (char &c : s)
+            c = (char)(g.r.chance(1, 6) ? g.r.next() : 'a' + g.r.below(26));
+        return s;
+    }
+    struct Node // tree, 0..3 children per node, depth 0..4
+    {
+        int32_t val = 0;
+        std::string name;
+        std::vector<Node> kids;
+        void serialize(igris::archive::binary_serializer_basic &m) const
+        {
+            igris::serialize(m, val);
+            igris::serialize(m, name);
+            igris::serialize(m, (uint16_t)kids.size());
+            for (const Node &k : kids)
+            {
+                std::string blob = igris::serialize(k);
+                igris::serialize(m, blob);
+            }
+        }
+        void deserialize(igris::archive::binary_deserializer_basic &m)
+        {
+            uint16_t n = 0;
+            igris::deserialize(m, val);
+            igris::deserialize(m, name);
+            igris::deserialize(m, n);
+            kids.clear();
+            for (int i = 0; i < n; i++)
+            {
+                std::string blob;
+                igris::deserialize(m, blob);
+                kids.push_back(igris::deserialize<Node>(blob));
+            }
+        }
+        auto tie() { return std::tie(val, name, kids); }
+        auto tie() const { return std::tie(val, name, kids); }
+        static constexpr bool c09_custom = true;
+        static constexpr size_t c09_min_cost = 8;
+        static Node c09_gen(Gen &g)
+        {
+            Node n;
+            n.val = gen<int32_t>(g);
+            n.name = short_name(g);
+            size_t nk = g.rec >= 4 ? 0 : g.r.below(3) == 0 ? 0 : 1 + g.r.below(3);
+            g.rec++;
+            for (size_t i = 0; i < nk; i++)
+                n.kids.push_back(c09_gen(g));
+            g.rec--;
+            return n;
+        }
+        void c09_ref(std::string &out) const
+        {
+            ref_enc(val, out);
+            ref_enc(name, out);
+            ref_u16(kids.size(), out);
+            for (const Node &k : kids)
+            {
+                std::string b;
+                k.c09_ref(b);
+                ref_u16(b.size(), out);
+                out += b;
+            }
+        }
+    };
+    // serialize() calls igris::serialize on a member of the same type (next) and on one of another type (other)
+    struct Chain
+    {
+        uint8_t tag = 0;
+        std::vector<Chain> next; // none or one
+        Opt other;
+        int16_t tail = 0;
+        void serialize(igris::archive::binary_serializer_basic &m) const
+        {
+            igris::serialize(m, tag);
+            igris::serialize(m, (uint8_t)next.size());
+            if (!next.empty())
+                igris::serialize(m, igris::serialize(next[0]));
+            igris::serialize(m, igris::serialize(other));
+            igris::serialize(m, tail);
+        }
+        void deserialize(igris::archive::binary_deserializer_basic &m)
+        {
+            uint8_t has = 0;
+            std::string blob;
+            igris::deserialize(m, tag);
+            igris::deserialize(m, has);
+            next.clear();
+            if (has)
+            {
+                igris::deserialize(m, blob);
+                next.push_back(igris::deserialize<Chain>(blob));
+            }
+            igris::deserialize(m, blob);
+            other = igris::deserialize<Opt>(blob);
+            igris::deserialize(m, tail);
+        }
+        auto tie() { return std::tie(tag, next, other, tail); }
+        auto tie() const { return std::tie(tag, next, other, tail); }
+        static constexpr bool c09_custom = true;
+        static constexpr size_t c09_min_cost = 10;
+        static Chain c09_gen(Gen &g)
+        {
+            Chain c;
+            c.tag = gen<uint8_t>(g);
+            Gen small{g.r, 60};
+            small.alt = g.alt++;
+            c.other = Opt::c09_gen(small);
+            c.tail = gen<int16_t>(g);
+            if (g.rec < 4 && g.r.chance(2, 3))
+            {
+                g.rec++;
+                c.next.push_back(c09_gen(g));
+                g.rec--;
+            }
+            return c;
+        }
+        void c09_ref(std::string &out) const
+        {
+            std::string b;
+            ref_enc(tag, out);
+            ref_enc((uint8_t)next.size(), out);
+            if (!next.empty())
+            {
+                next[0].c09_ref(b);
+                ref_u16(b.size(), out);
+                out += b;
+                b.clear();
+            }
+            other.c09_ref(b);
+            ref_u16(b.size(), out);
+            out += b;
+            ref_enc(tail, out);
+        }
+    };
+
     // registration helpers shared by the two old-front-end TUs
     template <class T> void old_golden(const char *name);
 }
